@@ -8,14 +8,25 @@ TARGETS = ["Base/Corr.vo", "C11/Model.vo", "C11/Spec.vo", "C11/ProofsMap.vo", "C
            "C03/ProofsSem.vo", "C03/ProofsJoint.vo", "C03/ProofsConv.vo", "C03/ProofsOps.vo",
            "C03/ModelM.vo", "C03/CorrM.vo", "C03/ProofsM.vo", "C03/Props.vo"]
 PROPS = ["C03/Props.v"]
-PARTIAL = ("Theorems are about the hand-written model coq/C03/Model.v (on top of the shared sparse-vector model "
-           "coq/C11/Model.v: heap of cells + value map + ordered key set standing for the AVL index, justified by C19) of "
-           "vector_sparse_template_math.in / vector_dense_template_math.in and the conversions of the vector templates. "
-           "Element carrier Z (float division is exact only where the divisor divides the dividend; that is what the "
-           "harness generates). Not modelled: MdotV/VdotM, sparse and dense MATRIX operations (MaddM..MdotM, Outer, "
-           "Set, SetIdentity), derivatives of Real vectors, the concrete capital twins (C09). Theorems for a sparse "
-           "receiver assume the receiver is a different vector than its sparse operands and shares no cell with them "
-           "(aliasing is covered by the correspondence only). See Props.v for statements named _partial.")
+PARTIAL = ("Proved in Coq, for ALL worlds/vectors/operands (no bounds), about the hand-written model coq/C03/Model.v (on top "
+           "of the shared sparse-vector model coq/C11/Model.v: heap of cells + value map + ordered key set standing for "
+           "the AVL index, justified by C19) of vector_sparse_template_math.in / vector_dense_template_math.in and the "
+           "vector templates: for a dense receiver (operands may alias it) and for a sparse receiver in any coherent "
+           "internal state (stale entries, stored zeros, value-less keys) with operands dense or OTHER sparse vectors, "
+           "VaddV/VsubV/VmulV/VdivV/VaddS/VsubS/VmulS/VdivS/Set give the element-wise result of the operands' values, "
+           "change no other vector and keep the world coherent; Equals is the point-wise predicate for epsilon > 0; "
+           "AsDense(any) and AsSparse(dense) keep every element; the joint-iterator step lemma (next visited index = "
+           "least non-zero position of receiver/operands, correct presence and values) and JOINT = JOINT3 with an empty "
+           "third operand. Carrier Z: division is Go's truncating integer division; for float types it is exact only "
+           "where the divisor divides the dividend (what the harness generates); theorems on division assume non-zero "
+           "divisors (x/0: Inf/NaN codes resp. panic are modelled and tied, no theorem). NOT proved: a sparse receiver "
+           "that is also one of its operands or shares cells with them (correspondence only); abs(Clone)/abs(NewSparse) "
+           "equations; that coherence+separation is an invariant of whole histories (each theorem re-establishes "
+           "it for its own receiver); all MATRIX operations (MaddM..MdivS, MdotM, Outer, MdotV, VdotM, Set, SetIdentity, "
+           "Reset, Equals, conversions on unsliced, untransposed matrices) are modelled in coq/C03/ModelM.v and tied by "
+           "the correspondence but carry no universally quantified theorem. Not modelled: derivatives of Real vectors "
+           "(values only), the concrete capital twins VADDV.. (C09), views/transposes (C10). Equals with epsilon <= 0 is "
+           "outside the statement (the strict test fails for equal elements; storages differ there).")
 KNOWN_PROPOSED = os.path.join(vlib.ROOT, "corpus/C03/known_findings_proposed.json")
 CORPUS = os.path.join(vlib.ROOT, "corpus/C03/corpus.jsonl")
 
@@ -94,7 +105,7 @@ def known(ctx, binary):
     kp = os.path.join(ctx.dir, "known.json")
     if rc != 0 or not os.path.exists(kp):
         return
-    seen = {k["id"]: k for k in json.load(open(kp))}
+    seen = {k["id"]: k for k in (json.load(open(kp)) or [])}
     for f in known_list():
         k = seen.get(f["id"])
         if k and k["confirmed"]:
@@ -126,8 +137,7 @@ def run(ctx):
     known(ctx, binary)
     h0 = hunt(ctx, binary, bad, broken)
     if h0:
-        # (the recorded finding C03-EQEPS0 is excluded inside the oracle itself, narrowly: the result of an
-        #  Equals call with epsilon <= 0 is not judged; it is replayed separately by known())
+        # (the oracle does not judge the RESULT of Equals calls with epsilon <= 0: outside the statement)
         key = "mcase" if h0.get("mcase") else "case"
         ctx.violation({key: h0[key], "failure": h0["failure"], "at": h0["at"], "broken": broken}, True,
                       "result depends on storage / prior receiver content: " + h0["failure"])
